@@ -2,10 +2,15 @@
 package c14
 
 import (
+	"context"
 	"fmt"
 	"strings"
+	"sync"
+	"sync/atomic"
 	"testing"
 	"time"
+
+	"github.com/whoisnian/glb/tasklane"
 
 	"pgregory.net/rapid"
 
@@ -114,6 +119,115 @@ func TestStableStates(t *testing.T) {
 		ev.LabelN("exact_pending_checks_at_rest", int64(res.ExactPendingChecks))
 		ev.Case(pinned == lanes && res.Accepted > lanes, ev.Hash("stable", p.String()), func() string {
 			return fmt.Sprintf("stable state lanes=%d queue=%d pinned=%d rounds=%d: accepted=%d started=%d exactChecks=%d", lanes, queue, pinned, rounds, res.Accepted, res.Started, res.ExactPendingChecks)
+		})
+	})
+}
+
+// ---- the pending count compared exactly while Status() is polled from other goroutines (real clock) ----
+
+type holdTask struct {
+	gate    chan struct{}
+	started atomic.Int32
+}
+
+func (h *holdTask) Start() { h.started.Add(1); <-h.gate }
+
+// TestPendingExactWhilePolled builds a state in which nothing moves: every worker is inside a task that waits for a
+// gate, every queue goroutine holds one task it cannot hand over, and the buffers have room. From then on a PushTask
+// that returns nil has put its task into a buffer and the lane is at rest the moment the call returns: the pending
+// count is laneSize + the number of pushes accepted so far, and that is what Status() must say to the pushing
+// goroutine - while other goroutines call Status() in tight loops all the time (they may look at the counters at any
+// moment, and whatever they share among themselves is their business).
+func TestPendingExactWhilePolled(t *testing.T) {
+	rt.Check(t, 8, 400, func(t *rapid.T) {
+		lanes := rapid.IntRange(1, 3).Draw(t, "laneSize")
+		queue := rapid.SampledFrom([]int{2, 8, 40, 120, 400}).Draw(t, "queueSize")
+		pollers := rapid.IntRange(1, 4).Draw(t, "pollers")
+		ctx, cancel := context.WithCancel(context.Background())
+		defer cancel()
+		// the build-tag-guarded hook tells when a queue goroutine has counted the task it holds (point Q2)
+		var q2 atomic.Int32
+		hook := func(point string, lane int, tk tasklane.Task) {
+			if point == "Q2" {
+				q2.Add(1)
+			}
+		}
+		tasklane.VerifHook.Store(&hook)
+		defer tasklane.VerifHook.Store(nil)
+		tl := tasklane.New(ctx, lanes, queue)
+		tl.SetTimeout(10 * time.Minute)
+		gate := make(chan struct{})
+		var pins []*holdTask
+		for l := 0; l < lanes; l++ {
+			p := &holdTask{gate: gate}
+			pins = append(pins, p)
+			if err := tl.PushTask(p, l); err != nil {
+				t.Fatalf("PushTask returned %v", err)
+			}
+		}
+		waitUntil := func(what string, cond func() bool) {
+			for deadline := time.Now().Add(90 * time.Second); !cond(); {
+				if time.Now().After(deadline) {
+					close(gate)
+					fmt.Printf("HARNESS-INCONCLUSIVE: %s did not come about within a minute and a half\n", what)
+					t.Fatalf("harness inconclusive")
+				}
+				time.Sleep(100 * time.Microsecond)
+			}
+		}
+		waitUntil("every worker inside its pinning task", func() bool {
+			for _, p := range pins {
+				if p.started.Load() == 0 {
+					return false
+				}
+			}
+			return true
+		})
+		for l := 0; l < lanes; l++ { // one task per lane for the queue goroutine to hold
+			if err := tl.PushTask(&holdTask{gate: gate}, l); err != nil {
+				t.Fatalf("PushTask returned %v", err)
+			}
+		}
+		waitUntil("every queue goroutine holding (and having counted) its task", func() bool { return int(q2.Load()) == 2*lanes && tl.Status().PendingTask == lanes })
+		var stop atomic.Bool
+		var polls atomic.Int64
+		var wg sync.WaitGroup
+		for i := 0; i < pollers; i++ {
+			wg.Add(1)
+			go func() {
+				defer wg.Done()
+				for !stop.Load() {
+					tl.Status()
+					polls.Add(1)
+				}
+			}()
+		}
+		waitUntil("the pollers running", func() bool { return polls.Load() >= int64(pollers) })
+		accepted := 0
+		var msg string
+		for round := 0; round < queue-1 && msg == ""; round++ {
+			for l := 0; l < lanes && msg == ""; l++ {
+				if err := tl.PushTask(&holdTask{gate: gate}, l); err != nil {
+					msg = fmt.Sprintf("PushTask into a buffer with room returned %v", err)
+					break
+				}
+				accepted++
+				if got, want := tl.Status().PendingTask, lanes+accepted; got != want {
+					msg = fmt.Sprintf("laneSize %d, queueSize %d, %d goroutines polling Status(): every worker is pinned, every queue goroutine holds a task, and push #%d into a buffer has just returned nil - Status().PendingTask = %d, but %d accepted tasks have not been started", lanes, queue, pollers, accepted, got, want)
+				}
+			}
+		}
+		stop.Store(true)
+		wg.Wait()
+		close(gate)
+		if msg != "" {
+			t.Fatalf("%s", msg)
+		}
+		cancel()
+		tl.Wait()
+		ev.LabelN("exact_pending_checks_while_polled", int64(accepted))
+		ev.Case(true, ev.Hash("polled", fmt.Sprint(lanes, queue, pollers, polls.Load())), func() string {
+			return fmt.Sprintf("laneSize %d queueSize %d: %d exact comparisons of PendingTask right after an accepted push while %d goroutines polled Status() (%d polls)", lanes, queue, accepted, pollers, polls.Load())
 		})
 	})
 }
